@@ -96,6 +96,62 @@ func vCorpusMS(c int) (sig string, bytes bool, max int, r1 Request, ok bool) {
 	return "", false, 0, nil, false
 }
 
+// vDeltaWire ties DeltaSize to the REAL proto encoding: for log records whose own encoding has length n (0, 2.., 127, 128,
+// 16383, 16384, ... - both sides of every varint boundary), the ScopeLogs message with that record is exactly DeltaSize(n)
+// bytes longer than without it (tag + varint(n) + n). Sizes are those of the generated proto Size() the marshaler allocates.
+func vDeltaWire(out *vOut, big bool) {
+	m := plog.ProtoMarshaler{}
+	targets := []int{4, 5, 11, 126, 127, 128, 129, 16382, 16383, 16384, 16385}
+	if big {
+		targets = append(targets, 2097151, 2097152, 2097153)
+	}
+	empty := m.ScopeLogsSize(plog.NewScopeLogs())
+	// n = 0: a log record is never empty in this encoding (trace_id / span_id are always written: 4 bytes); a metric
+	// without name and type, and a number data point without timestamp / value / attributes, do encode to nothing
+	{
+		mm := pmetric.ProtoMarshaler{}
+		sm := pmetric.NewScopeMetrics()
+		before := mm.ScopeMetricsSize(sm)
+		mt := sm.Metrics().AppendEmpty()
+		if mm.MetricSize(mt) == 0 {
+			want := mm.ScopeMetricsSize(sm) - before
+			if got := (&sizer.MetricsBytesSizer{}).DeltaSize(0); got != want {
+				out.Linef("viol sig=C04/sizer/delta-size-differs-from-encoded-size n=0 delta_size=%d encoded=%d", got, want)
+			}
+			out.Linef("stat delta_wire_checked_zero 1")
+		}
+		g := pmetric.NewMetric()
+		g.SetEmptyGauge()
+		before = mm.MetricSize(g)
+		dp := g.Gauge().DataPoints().AppendEmpty()
+		if mm.NumberDataPointSize(dp) == 0 {
+			want := mm.MetricSize(g) - before
+			if got := (&sizer.MetricsBytesSizer{}).DeltaSize(0); got != want {
+				out.Linef("viol sig=C04/sizer/delta-size-differs-from-encoded-size n=0 delta_size=%d encoded=%d", got, want)
+			}
+			out.Linef("stat delta_wire_checked_zero 1")
+		}
+	}
+	for _, n := range targets {
+		for pad := max(0, n-16); pad <= n; pad++ {
+			sl := plog.NewScopeLogs()
+			lr := sl.LogRecords().AppendEmpty()
+			if n > 0 {
+				lr.Body().SetStr(strings.Repeat("x", pad))
+			}
+			if m.LogRecordSize(lr) != n {
+				continue
+			}
+			want := m.ScopeLogsSize(sl) - empty
+			if got := (&sizer.LogsBytesSizer{}).DeltaSize(n); got != want {
+				out.Linef("viol sig=C04/sizer/delta-size-differs-from-encoded-size n=%d delta_size=%d encoded=%d", n, got, want)
+			}
+			out.Linef("stat delta_wire_checked 1")
+			break
+		}
+	}
+}
+
 // TestVerifC04MergeSplit drives the real MergeSplit of logs, traces and metrics requests.
 func TestVerifC04MergeSplit(t *testing.T) {
 	out := vOpen(t)
@@ -107,6 +163,14 @@ func TestVerifC04MergeSplit(t *testing.T) {
 		g := vNewGen(rnd)
 		sig := []string{"logs", "traces", "metrics", "metrics"}[c%4]
 		bytes := rnd.IntN(2) == 0
+		zeroLen := false
+		if rnd.IntN(5) == 0 {
+			// zero-length elements (every signal, mostly with the bytes sizer): many small elements per scope so that a
+			// sizer that budgets them too cheaply fills a batch well beyond max_size
+			zeroLen, bytes = true, bytes || rnd.IntN(3) != 0
+			g.zeroPct = []int{30, 70, 100}[rnd.IntN(3)]
+			g.maxIt = 14
+		}
 		csig, cbytes, cmax, cr1, isCorpus := vCorpusMS(c)
 		mk := func() Request {
 			switch sig {
@@ -158,6 +222,12 @@ func TestVerifC04MergeSplit(t *testing.T) {
 			c2, d2, arg2 = fmt.Sprint(r2.cached()), r2.dump(), r2.req
 		}
 		out.Linef("case %d sig=%s", c, sig)
+		if zeroLen && !isCorpus {
+			out.Linef("stat zero_length_elements 1")
+		}
+		if c%97 == 5 {
+			vDeltaWire(out, c == 5)
+		}
 		if c%97 == 5 { // DeltaSize boundary values (also negative: capacityLeft does go negative)
 			for _, v := range []int{-5, -1, 0, 1, 126, 127, 128, 129, 16383, 16384, 16385, 2097151, 2097152, 1 << 40} {
 				out.Linef("op delta %d", v)
